@@ -154,6 +154,13 @@ class Exhausted(StopIteration):
     """A user-defined subclass of StopIteration (iterator protocols of the user's own)."""
 
 
+class Problems(Exception):
+    """An exception that is also a (here: empty) collection: `bool(exc)` is False."""
+
+    def __len__(self):
+        return len(self.args)
+
+
 class KwOnlyError(Exception):
     """Keyword-only constructor, empty args, picklable through its own __reduce__."""
 
@@ -170,7 +177,7 @@ def _make_kwonly(code):
 
 
 EXC_KINDS = ("ValueError", "KeyError", "ZeroDivisionError", "RuntimeError0", "CustomError", "KwOnlyError", "FileNotFoundError",
-             "StopIteration", "TimeoutError", "Exhausted", "CancelledError")
+             "StopIteration", "TimeoutError", "Exhausted", "CancelledError", "Problems")
 
 
 def make_exc(kind: str):
@@ -196,6 +203,8 @@ def make_exc(kind: str):
         import concurrent.futures
 
         return concurrent.futures.CancelledError("inner job was cancelled")  # an ordinary Exception a user function may raise
+    if kind == "Problems":
+        return Problems()  # an exception object whose truth value is False (a collection of problems, empty message list)
     if kind == "Exhausted":
         return Exhausted(42)  # a user-defined subclass of StopIteration
     if kind == "WorkerDeath":
